@@ -447,6 +447,57 @@ def run(ctx):
                            ("%s differs from the convolution definition when its arrays are stored in layout %s (%s)" % (c["op"], tag, cls_of(c)),
                             {"kind": "oracle", "case": describe(c), "layout": tag, "in1": repr(np.asarray(a).tolist()), "in2": repr(np.asarray(f).tolist()),
                              "in1_strides": list(a2.strides), "in2_strides": list(f2.strides), "observed": repr(y.tolist()), "expected": repr(ref.tolist())}))
+    # LARGE blocks (thousands of samples, dozens of batch signals): any size-dependent code path must still be the definition and its
+    # exact adjoints (numpy dot tests + comparison with the direct scipy.signal computation; not sent through Coq)
+    import scipy.signal as _sig
+    nrl = np.random.RandomState(rng.randrange(2 ** 31))
+    crand = lambda sh: nrl.standard_normal(sh) + 1j * nrl.standard_normal(sh)     # noqa: E731
+    for dsh, fsh, mc in (([6000], [9], False), ([40, 300], [5], False), ([2, 96, 80], [3, 2, 3, 3], True), ([4500], [33], False)):
+        for mode in ("full", "valid"):
+            try:
+                d_, f_ = crand(dsh), crand(fsh)
+                y_ = np.asarray(sp.convolve(d_, f_, mode=mode, multi_channel=mc))
+                w_ = crand(y_.shape)
+                lhs = np.vdot(w_, y_)
+                r1 = np.vdot(sp.convolve_data_adjoint(w_, f_, dsh, mode=mode, multi_channel=mc), d_)
+                r2 = np.vdot(sp.convolve_filter_adjoint(w_, d_, fsh, mode=mode, multi_channel=mc), f_)
+                sc = np.linalg.norm(w_) * np.linalg.norm(y_) + 1e-300
+                ctx.count("large:%s:%s" % ("mc" if mc else "sc", mode), key=(tuple(dsh), tuple(fsh), mode), nontrivial=True)
+                if not mc:
+                    D = len(fsh)
+                    ref_ = np.stack([_sig.convolve(dd, f_, mode=mode) for dd in d_.reshape([-1] + dsh[-D:])]).reshape(y_.shape)
+                    if not np.allclose(y_, ref_, rtol=1e-9, atol=1e-9 * np.abs(ref_).max()):
+                        bad.setdefault("oracle:large:convolve", ("convolve differs from the convolution definition on a large block (data %s, filter %s, %s)" % (dsh, fsh, mode),
+                                                                {"kind": "oracle", "case": {"dshape": dsh, "fshape": fsh, "mode": mode, "mc": mc}, "seeded": "numpy RandomState stream of this run"}))
+                for nm, rr in (("data_adjoint", r1), ("filter_adjoint", r2)):
+                    if abs(lhs - rr) > 1e-9 * sc:
+                        bad.setdefault("oracle:large:" + nm, ("%s is not the adjoint of convolve on a large block (data %s, filter %s, %s): dot-test error %.3g"
+                                                              % (nm, dsh, fsh, mode, abs(lhs - rr) / sc),
+                                                              {"kind": "oracle", "case": {"dshape": dsh, "fshape": fsh, "mode": mode, "mc": mc}, "dot_error": float(abs(lhs - rr) / sc)}))
+            except Exception as e:
+                bad.setdefault("exception:large", ("convolution of a large block raised %r" % e, {"kind": "impl-exception", "case": {"dshape": dsh, "fshape": fsh, "mode": mode}}))
+    # REGROUPED shapes right after each other: the same flat sequence of extents split differently into data and filter shapes
+    # (different numbers of spatial / batch axes), each call judged by the definition
+    for seq in ([4, 5, 2, 2], [3, 1, 4, 1, 2], [2, 3, 3, 2], [5, 4, 3, 2, 2], [2, 2, 6, 2, 3]):
+        for cut in range(1, len(seq)):
+            dsh_, fsh_ = seq[:cut], seq[cut:]
+            D = len(fsh_)
+            if D > 3 or D > len(dsh_) or any(f > d for f, d in zip(fsh_, dsh_[-D:])):
+                continue
+            for mode in ("full", "valid"):
+                c_ = dict(op="convolve", D=D, mode=mode, mc=False, strides=None, dshape=dsh_, fshape=fsh_, cplx="cc")
+                try:
+                    a_, f_ = intarr(rng, dsh_, True), intarr(rng, fsh_, True)
+                    r_ = run_case(sp, rng, c_, arrays=(a_, f_))
+                except Exception as e:
+                    bad.setdefault("exception:regrouped", ("convolve raised %r on an admissible shape combination (data %s, filter %s, %s) called after other "
+                                                           "groupings of the same extents" % (e, dsh_, fsh_, mode), {"kind": "impl-exception", "case": describe(c_)}))
+                    continue
+                ctx.count("regrouped:%dD:%s" % (D, mode), key=(tuple(dsh_), tuple(fsh_), mode), nontrivial=True)
+                if list(r_["y"].shape) != list(r_["ref"].shape) or not np.allclose(r_["y"], r_["ref"], rtol=0, atol=1e-9):
+                    bad.setdefault("oracle:regrouped", ("convolve differs from the definition for data %s, filter %s (%s) when called after other groupings of the same extents"
+                                                        % (dsh_, fsh_, mode), {"kind": "oracle", "case": describe(c_), "in1": repr(a_.tolist()), "in2": repr(f_.tolist()),
+                                                                               "observed": repr(r_["y"].tolist()), "expected": repr(r_["ref"].tolist())}))
     # dot tests / bilinearity on the same shapes (complex floats)
     n_dot = 0
     seen_shapes = set()
